@@ -180,6 +180,79 @@ theorem decodes_to_standard_name_ENUM_D_TAG_COMMON_plus_ENUM_D_TAG_SOLARIS : Tab
 theorem decodes_to_standard_name_ENUM_D_TAG_COMMON_plus_ENUM_D_TAG_MIPS : TableDecodesStd 8025085275567682513399509880555981787208243245749839041317398305520480011505747 "ENUM_D_TAG_COMMON+ENUM_D_TAG_MIPS" := tableDecodesStd_of (by decide +kernel)
 theorem decodes_to_standard_name_ENUM_D_TAG_COMMON_plus_ENUM_D_TAG_AARCH64 : TableDecodesStd 134638589086618532146726471560221906536058733914486131561414915929751082190226915341876 "ENUM_D_TAG_COMMON+ENUM_D_TAG_AARCH64" := tableDecodesStd_of (by decide +kernel)
 
+/-! ### range-marker rule: a code with a real name is never reported under a range marker sharing its value
+     (`Enum` reports the LAST name of the dictionary: `DT_HIPROC` listed after `DT_FILTER` would shadow it) -/
+
+theorem no_marker_shadow_ENUM_EI_CLASS : TableNoMarkerShadow 5490986168324623947164568081235 "ENUM_EI_CLASS" := tableNoMarkerShadow_of (by decide +kernel)
+theorem no_marker_shadow_ENUM_EI_DATA : TableNoMarkerShadow 21449164720018062293627655233 "ENUM_EI_DATA" := tableNoMarkerShadow_of (by decide +kernel)
+theorem no_marker_shadow_ENUM_E_VERSION : TableNoMarkerShadow 1405692459091105313210148567207758 "ENUM_E_VERSION" := tableNoMarkerShadow_of (by decide +kernel)
+theorem no_marker_shadow_ENUM_EI_OSABI : TableNoMarkerShadow 5490986168324623947216225124937 "ENUM_EI_OSABI" := tableNoMarkerShadow_of (by decide +kernel)
+theorem no_marker_shadow_ENUM_E_TYPE : TableNoMarkerShadow 83785799687570650140594245 "ENUM_E_TYPE" := tableNoMarkerShadow_of (by decide +kernel)
+theorem no_marker_shadow_ENUM_E_MACHINE : TableNoMarkerShadow 1405692459091105310672411121241669 "ENUM_E_MACHINE" := tableNoMarkerShadow_of (by decide +kernel)
+theorem no_marker_shadow_ENUM_SH_TYPE_BASE : TableNoMarkerShadow 23583606015746942546096466659962463015749 "ENUM_SH_TYPE_BASE" := tableNoMarkerShadow_of (by decide +kernel)
+theorem no_marker_shadow_ENUM_SH_TYPE_AMD64 : TableNoMarkerShadow 6037403140031217291800695464950386437404212 "ENUM_SH_TYPE_AMD64" := tableNoMarkerShadow_of (by decide +kernel)
+theorem no_marker_shadow_ENUM_SH_TYPE_ARM : TableNoMarkerShadow 92123460999011494320689322890478309965 "ENUM_SH_TYPE_ARM" := tableNoMarkerShadow_of (by decide +kernel)
+theorem no_marker_shadow_ENUM_SH_TYPE_AARCH64 : TableNoMarkerShadow 395667252185085856435450377990988512427931874868 "ENUM_SH_TYPE_AARCH64" := tableNoMarkerShadow_of (by decide +kernel)
+theorem no_marker_shadow_ENUM_SH_TYPE_RISCV : TableNoMarkerShadow 6037403140031217291800695464950459385725782 "ENUM_SH_TYPE_RISCV" := tableNoMarkerShadow_of (by decide +kernel)
+theorem no_marker_shadow_ENUM_SH_TYPE_MIPS : TableNoMarkerShadow 23583606015746942546096466659962648088659 "ENUM_SH_TYPE_MIPS" := tableNoMarkerShadow_of (by decide +kernel)
+theorem no_marker_shadow_ENUM_ELFCOMPRESS_TYPE : TableNoMarkerShadow 101290816559363390316311524803579510309099230810181 "ENUM_ELFCOMPRESS_TYPE" := tableNoMarkerShadow_of (by decide +kernel)
+theorem no_marker_shadow_ENUM_P_TYPE_BASE : TableNoMarkerShadow 92123460999007975955103142905942987589 "ENUM_P_TYPE_BASE" := tableNoMarkerShadow_of (by decide +kernel)
+theorem no_marker_shadow_ENUM_P_TYPE_ARM : TableNoMarkerShadow 359857269527374906074621651976278605 "ENUM_P_TYPE_ARM" := tableNoMarkerShadow_of (by decide +kernel)
+theorem no_marker_shadow_ENUM_P_TYPE_AARCH64 : TableNoMarkerShadow 1545575203847932598321571730811591707165472308 "ENUM_P_TYPE_AARCH64" := tableNoMarkerShadow_of (by decide +kernel)
+theorem no_marker_shadow_ENUM_P_TYPE_MIPS : TableNoMarkerShadow 92123460999007975955103142906128060499 "ENUM_P_TYPE_MIPS" := tableNoMarkerShadow_of (by decide +kernel)
+theorem no_marker_shadow_ENUM_P_TYPE_RISCV : TableNoMarkerShadow 23583606015746041844506404583990258516822 "ENUM_P_TYPE_RISCV" := tableNoMarkerShadow_of (by decide +kernel)
+theorem no_marker_shadow_ENUM_ST_INFO_BIND : TableNoMarkerShadow 23583606015746957053002592413412686908996 "ENUM_ST_INFO_BIND" := tableNoMarkerShadow_of (by decide +kernel)
+theorem no_marker_shadow_ENUM_ST_INFO_TYPE : TableNoMarkerShadow 23583606015746957053002592413412989947973 "ENUM_ST_INFO_TYPE" := tableNoMarkerShadow_of (by decide +kernel)
+theorem no_marker_shadow_ENUM_ST_VISIBILITY : TableNoMarkerShadow 6037403140031221005629963123418601599095897 "ENUM_ST_VISIBILITY" := tableNoMarkerShadow_of (by decide +kernel)
+theorem no_marker_shadow_ENUM_ST_LOCAL : TableNoMarkerShadow 5490986168325635849744548053324 "ENUM_ST_LOCAL" := tableNoMarkerShadow_of (by decide +kernel)
+theorem no_marker_shadow_ENUM_ST_SHNDX : TableNoMarkerShadow 5490986168325635849774496105560 "ENUM_ST_SHNDX" := tableNoMarkerShadow_of (by decide +kernel)
+theorem no_marker_shadow_ENUM_D_TAG_COMMON : TableNoMarkerShadow 23583606015742328023945185354600441270094 "ENUM_D_TAG_COMMON" := tableNoMarkerShadow_of (by decide +kernel)
+theorem no_marker_shadow_ENUM_D_TAG_SOLARIS : TableNoMarkerShadow 6037403140030035974129967455281308096416083 "ENUM_D_TAG_SOLARIS" := tableNoMarkerShadow_of (by decide +kernel)
+theorem no_marker_shadow_ENUM_D_TAG_MIPS : TableNoMarkerShadow 359857269527318237670062032555692115 "ENUM_D_TAG_MIPS" := tableNoMarkerShadow_of (by decide +kernel)
+theorem no_marker_shadow_ENUM_D_TAG_AARCH64 : TableNoMarkerShadow 6037403140030035974129967450199391155533364 "ENUM_D_TAG_AARCH64" := tableNoMarkerShadow_of (by decide +kernel)
+theorem no_marker_shadow_ENUMMAP_EXTRA_D_TAG_MACHINE_EM_MIPS : TableNoMarkerShadow 525931988587779285554006944825206534167808176617811026131802937566110139496096419923 "ENUMMAP_EXTRA_D_TAG_MACHINE.EM_MIPS" := tableNoMarkerShadow_of (by decide +kernel)
+theorem no_marker_shadow_ENUMMAP_EXTRA_D_TAG_MACHINE_EM_MIPS_RS3_LE : TableNoMarkerShadow 37897393725218347923570720628013233352097014075304961872765879622367461971712501551450893166753827909 "ENUMMAP_EXTRA_D_TAG_MACHINE.EM_MIPS_RS3_LE" := tableNoMarkerShadow_of (by decide +kernel)
+theorem no_marker_shadow_ENUMMAP_EXTRA_D_TAG_MACHINE_EM_AARCH64 : TableNoMarkerShadow 8823674573846708034065254178832572268344698025683165032594902352981144090112754306387555892 "ENUMMAP_EXTRA_D_TAG_MACHINE.EM_AARCH64" := tableNoMarkerShadow_of (by decide +kernel)
+theorem no_marker_shadow_ENUM_D_TAG : TableNoMarkerShadow 327288280029568557138247 "ENUM_D_TAG" := tableNoMarkerShadow_of (by decide +kernel)
+theorem no_marker_shadow_ENUM_DT_FLAGS : TableNoMarkerShadow 5490986168324554985808158869331 "ENUM_DT_FLAGS" := tableNoMarkerShadow_of (by decide +kernel)
+theorem no_marker_shadow_ENUM_DT_FLAGS_1 : TableNoMarkerShadow 359857269527318035549923499660500785 "ENUM_DT_FLAGS_1" := tableNoMarkerShadow_of (by decide +kernel)
+theorem no_marker_shadow_ENUM_RELOC_TYPE_MIPS : TableNoMarkerShadow 395667252185080601784453994131958333791839801427 "ENUM_RELOC_TYPE_MIPS" := tableNoMarkerShadow_of (by decide +kernel)
+theorem no_marker_shadow_ENUM_RELOC_TYPE_i386 : TableNoMarkerShadow 395667252185080601784453994131958333792308115510 "ENUM_RELOC_TYPE_i386" := tableNoMarkerShadow_of (by decide +kernel)
+theorem no_marker_shadow_ENUM_RELOC_TYPE_x64 : TableNoMarkerShadow 1545575203847971100720523414577962241377187380 "ENUM_RELOC_TYPE_x64" := tableNoMarkerShadow_of (by decide +kernel)
+theorem no_marker_shadow_ENUM_RELOC_TYPE_BPF : TableNoMarkerShadow 1545575203847971100720523414577962241373655110 "ENUM_RELOC_TYPE_BPF" := tableNoMarkerShadow_of (by decide +kernel)
+theorem no_marker_shadow_ENUM_RELOC_TYPE_LOONGARCH : TableNoMarkerShadow 435040744507675065289786661379414259730056511727649399391048 "ENUM_RELOC_TYPE_LOONGARCH" := tableNoMarkerShadow_of (by decide +kernel)
+theorem no_marker_shadow_ENUM_RELOC_TYPE_S390X : TableNoMarkerShadow 101290816559380634056820222497781333450736388354136 "ENUM_RELOC_TYPE_S390X" := tableNoMarkerShadow_of (by decide +kernel)
+theorem no_marker_shadow_ENUM_SUNW_SYMINFO_BOUNDTO : TableNoMarkerShadow 435040744507681131269464648684575588108239366786995389224015 "ENUM_SUNW_SYMINFO_BOUNDTO" := tableNoMarkerShadow_of (by decide +kernel)
+theorem no_marker_shadow_ENUM_VERSYM : TableNoMarkerShadow 83785799687589230135171405 "ENUM_VERSYM" := tableNoMarkerShadow_of (by decide +kernel)
+theorem no_marker_shadow_ENUM_NOTE_N_TYPE : TableNoMarkerShadow 92123460999005482544163267873070469189 "ENUM_NOTE_N_TYPE" := tableNoMarkerShadow_of (by decide +kernel)
+theorem no_marker_shadow_ENUM_CORE_NOTE_N_TYPE : TableNoMarkerShadow 101290816559360747680762855109562653562230468595781 "ENUM_CORE_NOTE_N_TYPE" := tableNoMarkerShadow_of (by decide +kernel)
+theorem no_marker_shadow_ENUM_NOTE_ABI_TAG_OS : TableNoMarkerShadow 395667252185060036051880049272814348524672995155 "ENUM_NOTE_ABI_TAG_OS" := tableNoMarkerShadow_of (by decide +kernel)
+theorem no_marker_shadow_ENUM_NOTE_GNU_PROPERTY_TYPE : TableNoMarkerShadow 28510830232053511161622554788441095477571919501453577736838271045 "ENUM_NOTE_GNU_PROPERTY_TYPE" := tableNoMarkerShadow_of (by decide +kernel)
+theorem no_marker_shadow_ENUM_GNU_PROPERTY_X86_FEATURE_1_FLAGS : TableNoMarkerShadow 34467478806175671139419112514877951785895495964585981512951044543423280605358461533898579 "ENUM_GNU_PROPERTY_X86_FEATURE_1_FLAGS" := tableNoMarkerShadow_of (by decide +kernel)
+theorem no_marker_shadow_ENUM_RELOC_TYPE_ARM : TableNoMarkerShadow 1545575203847971100720523414577962241373590093 "ENUM_RELOC_TYPE_ARM" := tableNoMarkerShadow_of (by decide +kernel)
+theorem no_marker_shadow_ENUM_RELOC_TYPE_AARCH64 : TableNoMarkerShadow 6638194954035569233547770101614597469022408898450568756 "ENUM_RELOC_TYPE_AARCH64" := tableNoMarkerShadow_of (by decide +kernel)
+theorem no_marker_shadow_ENUM_ATTR_TAG_ARM : TableNoMarkerShadow 23583606015741386271047026491525492200013 "ENUM_ATTR_TAG_ARM" := tableNoMarkerShadow_of (by decide +kernel)
+theorem no_marker_shadow_ENUM_ATTR_TAG_RISCV : TableNoMarkerShadow 1545575203847627490659337928148614729683911510 "ENUM_ATTR_TAG_RISCV" := tableNoMarkerShadow_of (by decide +kernel)
+theorem no_marker_shadow_ENUM_RELOC_TYPE_PPC64 : TableNoMarkerShadow 101290816559380634056820222497781333450723990648372 "ENUM_RELOC_TYPE_PPC64" := tableNoMarkerShadow_of (by decide +kernel)
+theorem no_marker_shadow_ENUM_RELOC_TYPE_PPC : TableNoMarkerShadow 1545575203847971100720523414577962241374572611 "ENUM_RELOC_TYPE_PPC" := tableNoMarkerShadow_of (by decide +kernel)
+theorem no_marker_shadow_ENUM_RELOC_TYPE_V850 : TableNoMarkerShadow 395667252185080601784453994131958333791989675312 "ENUM_RELOC_TYPE_V850" := tableNoMarkerShadow_of (by decide +kernel)
+theorem no_marker_shadow_ENUM_DW_TAG : TableNoMarkerShadow 83785799687569516453445959 "ENUM_DW_TAG" := tableNoMarkerShadow_of (by decide +kernel)
+theorem no_marker_shadow_ENUM_DW_CHILDREN : TableNoMarkerShadow 92123460998993431267662574657318569294 "ENUM_DW_CHILDREN" := tableNoMarkerShadow_of (by decide +kernel)
+theorem no_marker_shadow_ENUM_DW_AT : TableNoMarkerShadow 327288280029568423641428 "ENUM_DW_AT" := tableNoMarkerShadow_of (by decide +kernel)
+theorem no_marker_shadow_ENUM_DW_FORM : TableNoMarkerShadow 21449164720017796211848204877 "ENUM_DW_FORM" := tableNoMarkerShadow_of (by decide +kernel)
+theorem no_marker_shadow_ENUM_DW_LNCT : TableNoMarkerShadow 21449164720017796211948798804 "ENUM_DW_LNCT" := tableNoMarkerShadow_of (by decide +kernel)
+theorem no_marker_shadow_ENUM_DW_UT : TableNoMarkerShadow 327288280029568423646548 "ENUM_DW_UT" := tableNoMarkerShadow_of (by decide +kernel)
+theorem no_marker_shadow_ENUM_DW_LLE : TableNoMarkerShadow 83785799687569516452924485 "ENUM_DW_LLE" := tableNoMarkerShadow_of (by decide +kernel)
+theorem no_marker_shadow_ENUM_DW_RLE : TableNoMarkerShadow 83785799687569516453317701 "ENUM_DW_RLE" := tableNoMarkerShadow_of (by decide +kernel)
+theorem no_marker_shadow_ENUM_DW_LANG : TableNoMarkerShadow 21449164720017796211947949639 "ENUM_DW_LANG" := tableNoMarkerShadow_of (by decide +kernel)
+theorem no_marker_shadow_ENUM_DW_ATE : TableNoMarkerShadow 83785799687569516452205637 "ENUM_DW_ATE" := tableNoMarkerShadow_of (by decide +kernel)
+theorem no_marker_shadow_ENUM_DW_ACCESS : TableNoMarkerShadow 1405692459091086292534134604911443 "ENUM_DW_ACCESS" := tableNoMarkerShadow_of (by decide +kernel)
+theorem no_marker_shadow_ENUM_DW_INL : TableNoMarkerShadow 83785799687569516452728396 "ENUM_DW_INL" := tableNoMarkerShadow_of (by decide +kernel)
+theorem no_marker_shadow_ENUM_DW_CC : TableNoMarkerShadow 327288280029568423641923 "ENUM_DW_CC" := tableNoMarkerShadow_of (by decide +kernel)
+theorem no_marker_shadow_ENUM_D_TAG_COMMON_plus_ENUM_D_TAG_SOLARIS : TableNoMarkerShadow 134638589086618532146726471560221906536058733914486131561414915929751087272143856224595 "ENUM_D_TAG_COMMON+ENUM_D_TAG_SOLARIS" := tableNoMarkerShadow_of (by decide +kernel)
+theorem no_marker_shadow_ENUM_D_TAG_COMMON_plus_ENUM_D_TAG_MIPS : TableNoMarkerShadow 8025085275567682513399509880555981787208243245749839041317398305520480011505747 "ENUM_D_TAG_COMMON+ENUM_D_TAG_MIPS" := tableNoMarkerShadow_of (by decide +kernel)
+theorem no_marker_shadow_ENUM_D_TAG_COMMON_plus_ENUM_D_TAG_AARCH64 : TableNoMarkerShadow 134638589086618532146726471560221906536058733914486131561414915929751082190226915341876 "ENUM_D_TAG_COMMON+ENUM_D_TAG_AARCH64" := tableNoMarkerShadow_of (by decide +kernel)
+
 /-! ### reverse maps and the CFA opcode name map -/
 
 /-- `DW_FORM_raw2name` reports exactly the (name, code) pairs of `ENUM_DW_FORM` and has an entry for each of its codes -/
@@ -213,6 +286,24 @@ theorem standard_name_selects_standard_code {k : Nat} {id : String} {e : Bool} {
     {vs : List Int} (hl : alookup Registry.entries n = some vs) : v ∈ vs :=
   C17All.every_table_conforms k id e T hT n v hm vs hl
 
+/-- whatever name the library reports for a code `v` through an ENUM_* table of the index: its marker flag `b` is
+    false unless EVERY name that table gives `v` is a range marker (so `DT_FILTER` is never reported as `DT_HIPROC`) -/
+theorem reported_name_is_not_range_marker {k : Nat} {id : String} {T : List (Nat × Int)}
+    (hT : (k, id, true, T) ∈ Gen.tableIndex) {v : Int} {k' : Nat} (h : decodeKey T v = some k') :
+    ∃ ms M b, findMarkers k Gen.markerIndex = some ms ∧ attachMarkers T ms = some M ∧
+      decodeEntry M v = some (k', b) ∧ (b = true → ∀ n b', (n, v, b') ∈ M → b' = true) := by
+  obtain ⟨ms, M, h1, h2, h3⟩ := C17All.every_enum_no_marker_shadow k id T hT
+  obtain ⟨b, h4, h5⟩ := reported_key_not_marker h2 h3 h
+  exact ⟨ms, M, b, h1, h2, h4, h5⟩
+
+/-- the same on a String-keyed table as `Model.decodeIn` (every reader's `Enum` decoding) sees it: under the rule, a
+    range marker is reported for `v` only when all names of `v` are range markers; the rule's premise for the
+    regenerated tables is `every_enum_no_marker_shadow` + the driver's `selfcheck` (`markers`: the flagged tables
+    ARE `markTable` of the String tables) -/
+theorem decodeIn_reports_no_range_marker {t : List (String × Int)} (h : NoMarkerShadow (markTable t)) {v : Int} {n : String}
+    (hd : Model.decodeIn t v = some n) (hm : isRangeMarker n = true) : ∀ n', (n', v) ∈ t → isRangeMarker n' = true :=
+  decodeIn_not_marker h hd hm
+
 /-! ### non-vacuity -/
 
 -- the registry knows R_ARM_IRELATIVE ↦ [160] and the regenerated ARM table carries exactly that pair
@@ -223,5 +314,19 @@ example : tableCheckB 1545575203847971100720523414577962241373590093 "ENUM_RELOC
 example : Registry.tree.lookup 30819057567511393641070689462402394539252358121272884 = some [1028, 1029] := by decide +kernel
 -- a name no registry defines ("DT_SUNW_CAP") is not judged
 example : Registry.tree.lookup 82605392963834651821162832 = none := by decide +kernel
+
+-- the rule bites: ENUM_D_TAG_COMMON carries DT_HIPROC and DT_FILTER, both 0x7fffffff, DT_HIPROC flagged, DT_FILTER last
+example : tableCheckB 23583606015742328023945185354600441270094 "ENUM_D_TAG_COMMON" (fun T =>
+    match findMarkers 23583606015742328023945185354600441270094 Gen.markerIndex with
+    | some ms => (match attachMarkers T ms with
+      | some M => decide ((1260458254513940352835, 2147483647, true) ∈ M) && decide ((1260458252314850116946, 2147483647, false) ∈ M)
+          && decide (decodeEntry M 2147483647 = some (1260458252314850116946, false))
+      | none => false)
+    | none => false) = true := by decide +kernel
+-- and the check rejects the swapped order
+example : noMarkerShadow [(1260458252314850116946, 2147483647, false), (1260458254513940352835, 2147483647, true)] = false := by decide
+example : noMarkerShadow [(1260458254513940352835, 2147483647, true), (1260458252314850116946, 2147483647, false)] = true := by decide
+-- two markers sharing a value are fine (SHN_LORESERVE / SHN_LOPROC = 0xff00)
+example : noMarkerShadow [(1, 0xff00, true), (2, 0xff00, true)] = true := by decide
 
 end PyElf.Props.C17
